@@ -28,6 +28,23 @@ for k in range(0, L + 1):
             bad("bounded::C36.escape_unescape", repr(x), repr(y), repr(x))
 # 2. parse_file_id(generate_file_id(path)) == path for str and bytes paths
 mp = M.default_mapping
+# exhaustively: every byte path over an alphabet with the escape characters and bytes that are NOT valid utf-8, as bytes and as the
+# surrogate-escaped str that git trees hand out; both directions
+from breezy.git.mapping import decode_git_path, encode_git_path
+PALPH = [b"a", b"_", b" ", b"\x0c", b"s", b"/", b"\xe9", b"\xff", "é".encode("utf-8")]
+LP = 3 if tier == "quick" else 4
+for k in range(0, LP + 1):
+    for t in itertools.product(PALPH, repeat=k):
+        bp = b"".join(t); n += 1
+        try:
+            sp = decode_git_path(bp)
+            fid_b, fid_s = mp.generate_file_id(bp), mp.generate_file_id(sp)
+            back = mp.parse_file_id(fid_s)
+            obs = (fid_b == fid_s, back == sp, encode_git_path(back) == bp, mp.generate_file_id(back) == fid_s)
+        except Exception as e:  # noqa
+            obs = repr(e)
+        if obs != (True, True, True, True):
+            bad("bounded::C36.path_file_id", "byte path %r" % bp, repr(obs), "same id for bytes and str form; path -> id -> path and id -> path -> id are identities")
 for p in ["", "a", "a b", "a_b", "d/f", "_s", "x\x0cy", "å/ø", "a__s c", "refs/heads/x"]:
     n += 1
     fid = mp.generate_file_id(p)
